@@ -142,3 +142,100 @@ def expansion_then_inverse_restores(h0: float, h1: float, h2: float, gf0: float,
         return
     assert eq(b0.p.ztop, h0) and eq(b1.p.ztop, h0 + h1) and eq(bd.p.ztop, h0 + h1 + h2), "heights restored"
     assert eq(f0.p.numberDensities["U235"], n) and eq(c0.p.numberDensities["U235"], 2 * n) and eq(c1.p.numberDensities["U235"], 2 * n), "densities restored"
+
+
+# ----------------------------------------------------------------------------- which component is a block's target
+class FlagNames:
+    """stand-in for armi.reactor.flags.Flags inside expansionData (flag = its name; a block/component carries a set)"""
+
+    FUEL = "FUEL"
+    CONTROL = "CONTROL"
+    POISON = "POISON"
+    SHIELD = "SHIELD"
+    SLUG = "SLUG"
+    PLENUM = "PLENUM"
+    ACLP = "ACLP"
+    DUMMY = "DUMMY"
+    CLAD = "CLAD"
+
+
+class CompStub:
+    pass
+
+
+class BlockStub:
+    """what ExpansionData needs from a Block: flags, children by flag / name, the designated-target parameter"""
+
+    def hasFlags(self, f):
+        return f in self.flags
+
+    def getChildrenWithFlags(self, f):
+        return [c for c in self.comps if f in c.flags]
+
+    def getChildren(self):
+        return list(self.comps)
+
+    def getComponent(self, f):
+        found = [c for c in self.comps if f in c.flags]
+        return found[0] if found else None
+
+    def getComponentByName(self, name):
+        found = [c for c in self.comps if c.name == name]
+        return found[0] if found else None
+
+    def __iter__(self):
+        return iter(self.comps)
+
+
+def pin_block(blockFlags, designated):
+    fuel = new(CompStub, name="fuel", flags={"FUEL"}, material=new(Material))
+    clad = new(CompStub, name="clad", flags={"CLAD"}, material=new(Material))
+    cool = new(CompStub, name="coolant", flags={"COOLANT"}, material=new(Fluid))
+    b = new(BlockStub, flags=blockFlags, comps=[fuel, clad, cool], p=new(PMap, axialExpTargetComponent=designated))
+    return b, fuel, clad
+
+
+TARGETS = ["FUEL", "CONTROL", "POISON", "SHIELD", "SLUG"]  # TARGET_FLAGS_IN_PREFERRED_ORDER in terms of the stand-in flags
+FLAG_OVERRIDE = {"armi.reactor.converters.axialExpansionChanger.expansionData:Flags": "FlagNames",
+                 "armi.reactor.converters.axialExpansionChanger.expansionData:TARGET_FLAGS_IN_PREFERRED_ORDER": "TARGETS"}
+
+
+@lemma(overrides=FLAG_OVERRIDE, gen={"kind": (0, 3)})
+def designated_target_is_respected(setFuel: bool, kind: int):
+    """a block boundary moves with its DESIGNATED target component; the default rules apply only without a designation"""
+    kind = choose(kind, 0, 3)
+    flags = [{"FUEL"}, {"PLENUM"}, {"ACLP"}, {"SHIELD"}][kind]
+    # (1) explicit designation of the clad, on any kind of block, with or without fuel locking
+    b, fuel, clad = pin_block(flags, "clad")
+    ed = new(ExpansionData, _a=[b], _componentDeterminesBlockHeight={}, _expansionFactors={})
+    ed._setTargetComponents(setFuel)
+    assert ed.isTargetComponent(clad) and not ed.isTargetComponent(fuel), "the designated component is the target"
+    assert b.p.axialExpTargetComponent == "clad", "and the designation is not overwritten"
+    # (2) no designation: fuel blocks lock to the fuel (or find it by flag), plenum/aclp blocks to the clad
+    b2, fuel2, clad2 = pin_block(flags, None)
+    ed2 = new(ExpansionData, _a=[b2], _componentDeterminesBlockHeight={}, _expansionFactors={})
+    ed2._setTargetComponents(setFuel)
+    if kind == 1 or kind == 2:
+        assert ed2.isTargetComponent(clad2) and not ed2.isTargetComponent(fuel2)
+        assert b2.p.axialExpTargetComponent == "clad"
+    else:
+        assert ed2.isTargetComponent(fuel2) and not ed2.isTargetComponent(clad2)
+        assert b2.p.axialExpTargetComponent == "fuel"
+
+
+@lemma(overrides=FLAG_OVERRIDE)
+def dummy_blocks_have_no_target_and_ambiguity_is_refused(setFuel: bool):
+    b, fuel, clad = pin_block({"DUMMY"}, None)
+    ed = new(ExpansionData, _a=[b], _componentDeterminesBlockHeight={}, _expansionFactors={})
+    ed._setTargetComponents(setFuel)
+    assert not ed.isTargetComponent(fuel) and not ed.isTargetComponent(clad)
+    # two fuel components and no designation: refused (exactly one candidate)
+    b3, fuel3, clad3 = pin_block({"SHIELD"}, None)
+    b3.comps.append(new(CompStub, name="fuel2", flags={"FUEL"}, material=new(Material)))
+    ed3 = new(ExpansionData, _a=[b3], _componentDeterminesBlockHeight={}, _expansionFactors={})
+    try:
+        ed3._setTargetComponents(False)
+        ok = True
+    except RuntimeError:
+        ok = False
+    assert not ok
